@@ -44,6 +44,9 @@ TMoved ==
   /\ Chk("reported_probability_in_unit_interval", FLe("0.0", Ev.acc) /\ FLe(Ev.acc, "1.0"))
   \* on a target whose density is finite everywhere no ratio is undefined (error code 90 = NaN ratio)
   /\ Chk("no_undefined_ratio_on_a_regular_target", Hdr.regular => Ev.code = 0)
+  \* IWLS at a point whose information matrix is not positive definite has no forward proposal density: it stays
+  /\ Chk("no_move_from_a_point_without_a_forward_proposal_density",
+         ("fwd_defined" \in DOMAIN Ev /\ ~Ev.fwd_defined) => ~Ev.moved)
   /\ Step
 
 \* the accept / reject decisions of the random-walk kernel are those of a uniform draw from the sub-key that did not
